@@ -393,8 +393,9 @@ class DeepInliner(Inliner):
                         node.id = ren[node.id]
                     return node
 
-            # the first iterable is evaluated outside the comprehension scope
+            # the first iterable is evaluated outside the comprehension scope: it keeps its names
             first_iter = val.generators[0].iter
+            val.generators[0].iter = ast.Constant(value=None)
             val = R().visit(val)
             val.generators[0].iter = first_iter
         init = _loc(ast.Assign(targets=[_loc(ast.Name(id=tgt.id, ctx=ast.Store()), tgt)], value=_loc(ast.Dict(keys=[], values=[]), val)), s)
@@ -574,6 +575,17 @@ def _bindings(fn: ast.FunctionDef) -> dict[str, list[ast.AST]]:
     return out
 
 
+def _mutated(fn: ast.FunctionDef, name: str) -> bool:
+    for n in _walk_own(fn.body):
+        if isinstance(n, ast.Call) and isinstance(n.func, ast.Attribute) and isinstance(n.func.value, ast.Name) and n.func.value.id == name and n.func.attr in ("sort", "reverse", "append", "extend", "insert", "remove", "pop", "clear"):
+            return True
+        if isinstance(n, ast.Subscript) and isinstance(n.ctx, (ast.Store, ast.Del)) and isinstance(n.value, ast.Name) and n.value.id == name:
+            return True
+        if isinstance(n, ast.AugAssign) and isinstance(n.target, ast.Name) and n.target.id == name:
+            return True
+    return False
+
+
 def fuse_loops(fn: ast.FunctionDef) -> bool:
     """`L = [E for x in D if c]` ... `for T in L: body`   ->   `for x in D: if c: T = E; body`   (L bound once, single generator).
 
@@ -589,7 +601,7 @@ def fuse_loops(fn: ast.FunctionDef) -> bool:
         while isinstance(it, ast.Call) and isinstance(it.func, ast.Name) and it.func.id in ("list", "tuple", "iter") and len(it.args) == 1 and not it.keywords:
             it = it.args[0]
         comp = None
-        if isinstance(it, ast.Name) and len(binds.get(it.id, [])) == 1:
+        if isinstance(it, ast.Name) and len(binds.get(it.id, [])) == 1 and not _mutated(fn, it.id):
             b = binds[it.id][0]
             p = getattr(b, "_parent", None)
             st = p
@@ -702,13 +714,11 @@ def uniquify(fn: ast.FunctionDef) -> None:
         loops = [b for b in bs if isinstance(b, (ast.For, ast.AsyncFor))]
         for c in comps:
             new = fresh(name)
+            # the first iterable is evaluated in the enclosing scope: it keeps its names
             first_iter = c.generators[0].iter
+            c.generators[0].iter = ast.Constant(value=None)
             R({name: new}).visit(c)
-            # the first iterable is evaluated in the enclosing scope
             c.generators[0].iter = first_iter
-            for x in ast.walk(first_iter):
-                if isinstance(x, ast.Name) and x.id == new and not any(x is y for g in c.generators[1:] for y in ast.walk(g)):
-                    pass
         if len(loops) + (other_stores.get(name, 0) - len(bs)) + (1 if name in params else 0) <= 1:
             continue
         if other_stores.get(name, 0) != len(bs) or name in params:
